@@ -948,6 +948,7 @@ func c11Oracles(r *verifsim.Run, mode string, isDkg bool, members []*c11Member, 
 							exOps = append(exOps, fmt.Sprintf("op%d(%d seats)", nd, readyOps[nd]))
 						}
 					}
+					cls = fmt.Sprintf("%s:excluded-%d-operators", cls, len(exOps))
 					r.Failf(cls, "dkg attempt %d, member %d: selection kept %d of %d ready seats but the quorum is %d; excluded operators %v (seat layout %v, operators in address order %v)",
 						a, o.m.idx, len(included), len(x.ready), params.GroupQuorum, exOps, seatNode, addrOrder)
 					return
@@ -1020,6 +1021,14 @@ func c11Oracles(r *verifsim.Run, mode string, isDkg bool, members []*c11Member, 
 						histKeys = append(histKeys, rk)
 					}
 					hist[rk] = append(hist[rk], histEntry{a, ex})
+					switch len(ex) {
+					case 1:
+						r.Probe("dkg:retry-excluded-single")
+					case 2:
+						r.Probe("dkg:retry-excluded-pair")
+					case 3:
+						r.Probe("dkg:retry-excluded-triplet")
+					}
 				}
 			} else {
 				var fIncl []group.MemberIndex
@@ -1059,14 +1068,6 @@ func c11Oracles(r *verifsim.Run, mode string, isDkg bool, members []*c11Member, 
 		for _, rk := range histKeys {
 			h := hist[rk]
 			for i := range h {
-				switch len(h[i].excl) {
-				case 1:
-					r.Probe("dkg:retry-excluded-single")
-				case 2:
-					r.Probe("dkg:retry-excluded-pair")
-				case 3:
-					r.Probe("dkg:retry-excluded-triplet")
-				}
 				if len(h[i].excl) > 3 {
 					r.Failf("C09:more-than-three-operators-excluded", "dkg attempt %d excluded operators %v (ready set %s)", h[i].att, h[i].excl, rk)
 					return
